@@ -126,6 +126,226 @@ def active_model_line(rx, tx, pad_size, pad_val, frames):
     return (f"(isotp-active (rx {' '.join(map(str, rx))}) (tx {' '.join(map(str, tx))}) (pad {pad_size} {pad_val}) (frames {fr}))")
 
 
+# ---------------------------------------------------------------------------------------------------------------------
+# C13: every way odxtools itself constructs an ISO-TP decoder (entry points of the anchored code). The property speaks of
+# "processing a frame": that is decode_rx_frame of whatever decoder object the user holds - the plain state machine, the
+# active decoder, and the verbose subclasses `odxtools snoop` creates through cli/snoop.py:init_verbose_state_machine
+# (whose callbacks run inside decode_rx_frame).
+VARIANTS = ["plain", "snoop-passive", "active", "snoop-active"]
+ACTIVE_VARIANTS = ("active", "snoop-active")
+
+
+class _Null:
+    """sink for what the verbose decoders print"""
+    def write(self, s): return len(s)
+    def flush(self): pass
+
+
+_NULL = _Null()
+
+
+def tx_ids_for(ids):
+    """paired transmit IDs for the active decoders (disjoint from every listened ID used by the generators: those are < 0x800)"""
+    return [0x1000 + i for i in ids]
+
+
+def make_variant(name, ids, pad=(8, 0xAA)):
+    """returns (decoder, stub bus or None); raises whatever the construction raises"""
+    import odxtools.isotp_state_machine as ism
+    ids = list(ids)
+    if name == "plain":
+        return ism.IsoTpStateMachine(ids), None
+    if name == "snoop-passive":
+        from odxtools.cli.snoop import init_verbose_state_machine
+        return init_verbose_state_machine(BaseClass=ism.IsoTpStateMachine, can_rx_ids=ids), None
+    bus = StubBus()
+    tx = tx_ids_for(ids)
+    if name == "active":
+        return ism.IsoTpActiveDecoder(bus, ids, tx, padding_size=pad[0], padding_value=pad[1]), bus
+    if name == "snoop-active":
+        from odxtools.cli.snoop import init_verbose_state_machine
+        # snoop's active_main passes bare ints (one ECU); lists for the multi-ID streams
+        one = len(ids) == 1
+        return init_verbose_state_machine(BaseClass=ism.IsoTpActiveDecoder, can_bus=bus, can_rx_ids=ids[0] if one else ids,
+                                          can_tx_ids=tx[0] if one else tx, padding_size=8), bus
+    raise KeyError(name)
+
+
+def variant_pad(name, k):
+    """padding configuration of the active decoders: snoop's is fixed, the bare class is run with several"""
+    return (8, 0xAA) if name != "active" else [(0, 0xAA), (8, 0x00), (12, 0xCC), (8, 0xAA)][k % 4]
+
+
+def run_variant(name, ids, frames, pad=(8, 0xAA)):
+    """feed the frames through decode_rx_frame of one decoder variant.
+    Returns (per-frame telegram lists, exception-or-None, canonical send lines of the stub bus).
+    Everything the implementation can do wrong here (construction, callbacks, prints) becomes data."""
+    import sys
+    per_frame, exc, sends = [], None, []
+    old = sys.stdout
+    sys.stdout = _NULL
+    try:
+        try:
+            m, bus = make_variant(name, ids, pad)
+        except (Exception, SystemExit) as e:  # noqa
+            return [], f"construct:{type(e).__name__}", []
+        n0 = 0
+        for (cid, data) in frames:
+            got = []
+            try:
+                for (rid, p) in m.decode_rx_frame(cid, data):
+                    got.append((rid, bytes(p)))
+            except (Exception, SystemExit) as e:  # noqa
+                exc = type(e).__name__
+                per_frame.append(got)
+                break
+            per_frame.append(got)
+            if bus is not None and len(bus.sent) > n0:
+                for (tid, p) in bus.sent[n0:]:
+                    sends.append(f"(send {tid} {hexa(p)})")
+                n0 = len(bus.sent)
+    finally:
+        sys.stdout = old
+    return per_frame, exc, sends
+
+
+def text_log_lines(frames, fmt):
+    lines = []
+    for n, (cid, data) in enumerate(frames):
+        if fmt == "normal":
+            lines.append(f"  can0  {cid:03X}   [{len(data)}]  " + " ".join(f"{b:02X}" for b in data))
+        elif fmt == "log":
+            lines.append(f"({1600000000 + n}.{n:06d}) can0 {cid:03X}#{data.hex().upper()}")
+        else:
+            lines.append(f"({1600000000 + n}.{n:06d}) vcan0 {cid:03x}##1{data.hex()}")
+    return lines
+
+
+def run_text_log_variant(name, ids, frames, fmt):
+    """the frames as a candump-style text log through read_telegrams of a passive decoder variant (what `odxtools snoop`
+    does with stdin). Returns (telegrams, exception-or-None). Lines the regexes do not accept (empty data field) only
+    produce a warning on stderr, which is swallowed."""
+    import sys
+    old = (sys.stdout, sys.stderr)
+    sys.stdout = sys.stderr = _NULL
+    out = []
+    try:
+        try:
+            m, _ = make_variant(name, ids)
+        except (Exception, SystemExit) as e:  # noqa
+            return [], f"construct:{type(e).__name__}"
+        text = io.StringIO("\n".join(text_log_lines(frames, fmt)) + "\n")
+
+        async def go():
+            async for (rid, p) in m.read_telegrams(text):
+                out.append((rid, bytes(p)))
+        try:
+            asyncio.run(go())
+        except (Exception, SystemExit) as e:  # noqa
+            return out, type(e).__name__
+    finally:
+        sys.stdout, sys.stderr = old
+    return out, None
+
+
+class _End(BaseException):
+    """raised by the fake bus when its frames are used up (read_telegrams on a bus never returns by itself)"""
+
+
+class _Hang(BaseException):
+    pass
+
+
+def _alarm(signum, frame):
+    raise _Hang()
+
+
+def _fake_bus_class():
+    import os
+    import can
+
+    class FakeBus(can.BusABC):
+        """a python-can bus that delivers a fixed list of frames and is always readable"""
+
+        def __init__(self, frames):
+            self.msgs = [can.Message(arbitration_id=c, data=d, is_extended_id=False) for (c, d) in frames]
+            self.msgs.reverse()
+            self.sent = []
+            self.r, self.w = os.pipe()
+            os.write(self.w, b"x")
+            self._is_shutdown = True     # nothing to shut down (silences BusABC.__del__)
+
+        def fileno(self): return self.r
+
+        def recv(self, timeout=None):
+            if not self.msgs:
+                raise _End()
+            return self.msgs.pop()
+
+        def send(self, msg, timeout=None): self.sent.append((msg.arbitration_id, bytes(msg.data)))
+
+        def close(self):
+            os.close(self.r)
+            os.close(self.w)
+    return FakeBus
+
+
+_FAKE_BUS = []
+
+
+def run_bus_variant(name, ids, frames):
+    """the frames as python-can messages through read_telegrams(bus) of the decoder `odxtools snoop` builds for a live
+    channel (passive: snoop-passive, active: snoop-active, where the bus also receives the flow control frames).
+    Returns (telegrams, exception-or-None, sent)"""
+    import signal
+    import sys
+    import odxtools.isotp_state_machine as ism
+    if not _FAKE_BUS:
+        _FAKE_BUS.append(_fake_bus_class())
+    old = (sys.stdout, sys.stderr)
+    sys.stdout = sys.stderr = _NULL
+    out, exc, bus = [], None, None
+    old_handler = signal.signal(signal.SIGALRM, _alarm)
+    try:
+        try:
+            bus = _FAKE_BUS[0](frames)
+            if name == "snoop-active":
+                from odxtools.cli.snoop import init_verbose_state_machine
+                one = len(ids) == 1
+                tx = tx_ids_for(ids)
+                m = init_verbose_state_machine(BaseClass=ism.IsoTpActiveDecoder, can_bus=bus, can_rx_ids=ids[0] if one else list(ids),
+                                               can_tx_ids=tx[0] if one else tx, padding_size=8)
+            else:
+                m, _ = make_variant(name, ids)
+        except (Exception, SystemExit) as e:  # noqa
+            return [], f"construct:{type(e).__name__}", []
+
+        async def go():
+            async for (rid, p) in m.read_telegrams(bus):
+                out.append((rid, bytes(p)))
+        signal.setitimer(signal.ITIMER_REAL, 5.0)
+        try:
+            asyncio.run(go())
+            exc = "returned"          # the frames cannot be used up without _End
+        except _End:
+            pass
+        except _Hang:
+            exc = "hang"
+        except (Exception, SystemExit) as e:  # noqa
+            exc = type(e).__name__
+        finally:
+            signal.setitimer(signal.ITIMER_REAL, 0)
+    finally:
+        signal.signal(signal.SIGALRM, old_handler)
+        sys.stdout, sys.stderr = old
+        if bus is not None:
+            try:
+                bus.close()
+            except Exception:  # noqa
+                pass
+    return out, exc, list(bus.sent)
+
+
 def interleave(rng, streams):
     """random merge of several frame lists, each keeping its own order"""
     idx = [0] * len(streams)
